@@ -11,8 +11,11 @@ import contextlib
 
 ROOT = os.path.dirname(os.path.dirname(os.path.abspath(__file__)))
 REPO = os.environ.get("VERIF_REPO", "/repo")
-EVIDENCE = os.path.join(ROOT, "evidence")
-REPLAYS = os.path.join(ROOT, "replays")
+# evidence is only ever written for runs against /repo itself; runs against a scratch copy
+# (VERIF_REPO=...) used for mutation experiments write under .scratch/
+_real = os.path.abspath(REPO) == "/repo"
+EVIDENCE = os.path.join(ROOT, "evidence") if _real else os.path.join(ROOT, ".scratch", "evidence")
+REPLAYS = os.path.join(ROOT, "replays") if _real else os.path.join(ROOT, ".scratch", "replays")
 GUARD = "PYTOUGH_VERIF"
 
 os.environ[GUARD] = "1"
